@@ -160,6 +160,9 @@ def build(sc, rng, keyed=False):
     sc = dict(sc)
     if kind == 'reshuffle':
         return ds.shuffle(True, rng=rng), sc
+    if kind == 'frozen':
+        # catch() freezes its input at the start of every iteration
+        return ds.shuffle(True, rng=rng).catch(), sc
     if kind == 'local':
         return ds.shuffle(True, rng=rng, buffer_size=sc['bs']), sc
     if kind == 'once':
@@ -303,6 +306,7 @@ def cfg(maxn, niter, kinds, maxreps=2, invs=('EmitBehaviour', 'EmitCex', 'Design
 TIERS = {
     'quick': {
         'bfs': [('reshuffle-n3-2it', 3, 2, ['reshuffle'], 1),
+                ('frozen-n3-2it', 3, 2, ['frozen'], 1),
                 ('local-n3-2it', 3, 2, ['local'], 1),
                 ('once-n3-2it', 3, 2, ['once'], 1),
                 ('tile-choice-n3', 3, 1, ['tile', 'choice'], 2)],
@@ -311,6 +315,8 @@ TIERS = {
     'thorough': {
         'bfs': [('reshuffle-n4-2it', 4, 2, ['reshuffle'], 1),
                 ('reshuffle-n2-3it', 2, 3, ['reshuffle'], 1),
+                ('frozen-n4-2it', 4, 2, ['frozen'], 1),
+                ('frozen-n2-3it', 2, 3, ['frozen'], 1),
                 ('local-n2-3it', 2, 3, ['local'], 1),
                 ('local-n4-1it', 4, 1, ['local'], 1),
                 ('local-n3-2it', 3, 2, ['local'], 1),
@@ -366,13 +372,13 @@ def seeded_runs(count, maxn, rnd):
     """Real numpy generators, larger datasets, random interleavings, iterators
     abandoned at random points."""
     out = []
-    kinds = ['reshuffle', 'local', 'once', 'tile', 'choice']
+    kinds = ['reshuffle', 'frozen', 'local', 'once', 'tile', 'choice']
     for t in range(count):
         kind = kinds[t % len(kinds)]
         n = rnd.randint(0, maxn)
         seed = rnd.randrange(2 ** 31)
         gen = rnd.choice(['RandomState', 'default_rng', 'global'])
-        k = rnd.choice([1, 2, 2, 3]) if kind in ('reshuffle', 'local', 'once') else 1
+        k = rnd.choice([1, 2, 2, 3]) if kind in ('reshuffle', 'frozen', 'local', 'once') else 1
         sc = {'kind': kind, 'n': n, 'bs': 0, 'k': k, 'reps': 0, 'size': 0,
               'bp': [], 'sel': [], 'repl': False}
         if kind == 'local':
@@ -449,6 +455,7 @@ def compositions(vecs, count, maxn, rnd, three):
 def short(rec):
     sc = rec['sc']
     desc = {'reshuffle': f'new(range({sc["n"]})).shuffle(True, rng)',
+            'frozen': f'new(range({sc["n"]})).shuffle(True, rng).catch()',
             'local': f'new(range({sc["n"]})).shuffle(True, rng, buffer_size={sc["bs"]})',
             'once': f'new(range({sc["n"]})).shuffle(False, rng) perm={sc["bp"]}',
             'tile': f'new(range({sc["n"]})).tile({sc["reps"]}, shuffle=True) perms={sc["bp"]}',
